@@ -181,7 +181,7 @@ def _tla_set(xs):
 
 
 FLAGS = ["ResetChangesPerJob", "MissListSquared", "KeepMissedAcrossSteps", "PriorityToAllEngines", "PruneKeepsEqual",
-         "PartialCommit"]
+         "PartialCommit", "UpdateTouchesTruth"]
 
 
 def trace_module(g: dict) -> tuple[str, str]:
